@@ -290,7 +290,7 @@ def main(run):
         "and the supercell has images (ns > np). Oracle: 3-level Richardson central differences (h=4e-4 1/Angstrom) of the "
         "implementation's own D(q) vs analytic derivative (%g*scale); group velocities vs central differences of the reported "
         "frequencies for modes with f > %g THz and band gap > %g THz, plus designated long-wavelength points (|q| = 0.002, 0.004, 0.008 r.l.u. on rocksalt, bct, hcp; modes farther than 1.2e-4 THz from every other band and above the 1e-4 THz cutoff, adaptive step); PhonopyGruneisen on uniformly scaled force constants vs "
-        "closed form, and mesh symmetry on/off moments." % (TOL_NUM, FMIN, GAP))
+        "closed form, and mesh symmetry on/off moments. Sequences: DynamicalMatrix(Wang) + DerivativeOfDynamicalMatrix + GroupVelocity evaluated, the dynamical matrix mutated through its public nac_params setter, the SAME objects evaluated again and compared with the numerical derivative of the current D(q), lang='Py', freshly built objects and the model fed with the current parameters." % (TOL_NUM, FMIN, GAP))
     run.cov["trusted_base"] = [
         "Lean 4.33 kernel; Mathlib v4.33; axioms per theorem in coverage.theorems",
         "hand-written models Model/DerivDynMat.lean, Model/Gruneisen.lean tied to c/derivative_dynmat.c, derivative_dynmat.py, "
@@ -712,6 +712,104 @@ def main(run):
                 lines.append(request_ddmall(spec, ph, dF, np.array(dmn.force_constants), qq, nac))
                 meta.append(("ddmall", inf2, 3 * len(ph.primitive), dict(C=c1, Py=p1, D=None)))
         done += 1
+
+    # ---------------- sequences on ONE set of objects: DynamicalMatrix(Wang) + DerivativeOfDynamicalMatrix + GroupVelocity,
+    # evaluate -> mutate the dynamical matrix through its public setter (nac_params) -> evaluate again with the SAME objects
+    from phonopy.phonon.group_velocity import GroupVelocity as _GVc
+
+    seq_cases = [("nacl_prim", np.diag([2, 2, 2])), ("cscl", np.array([[2, 1, 0], [0, 2, 0], [0, 0, 1]]))]
+    if thorough:
+        seq_cases += [("zincblende_prim", np.diag([2, 2, 2])), ("hcp", np.diag([2, 2, 1]))]
+    for (name, smat) in seq_cases:
+        cell = make_cell(name)
+        ph = Phonopy(cell, supercell_matrix=smat, primitive_matrix="P", log_level=0, is_symmetry=False)
+        ph.nac_params = rand_nac(rng, len(cell))
+        ph.force_constants = gen.pair_fc(ph.supercell, 4.5)
+        dm = ph.dynamical_matrix
+        ddm_obj = DerivativeOfDynamicalMatrix(dm)
+        gv_obj = _GVc(dm, frequency_factor_to_THz=ph.unit_conversion_factor)
+        npa = len(ph.primitive)
+        reclat = np.array(np.linalg.inv(ph.primitive.cell), dtype="double", order="C")
+        for k_ in range(3):
+            if k_ > 0:
+                newp = rand_nac(rng, len(cell))
+                newp["born"] = newp["born"] * (1.5 if k_ == 1 else 0.5) + 0.3 * np.eye(3)
+                dm.nac_params = newp  # public setter of DynamicalMatrixNAC
+            qpt = np.array([rng.uniform(0.08, 0.45) * rng.choice([1, -1]) for _ in range(3)])
+            info = dict(cell=name, smat=np.array(smat).tolist(), q=qpt.tolist(), step=k_, history=["build"] + ["dynmat.nac_params = ..."] * k_)
+            ddm_obj.run(qpt, lang="C")
+            dC = ddm_obj.d_dynamical_matrix.copy()
+            ddm_obj.run(qpt, lang="Py")
+            dP = ddm_obj.d_dynamical_matrix.copy()
+            fresh = DerivativeOfDynamicalMatrix(dm)
+            fresh.run(qpt, lang="C")
+            dF = fresh.d_dynamical_matrix.copy()
+            num = numeric_dD(dm, qpt, ph.primitive.cell)
+            sc = max(1e-3, np.abs(num).max())
+            klass = "reused-objects-after-nac_params-setter" if k_ > 0 else "sequence-initial"
+            run.count("oracle-sequence-derivative(reused object vs numeric/Py/fresh)", section="oracle")
+            for what, ref, tol in (("the numerical derivative of the current D(q)", num, TOL_NUM), ("lang='Py' of the same object", dP, TOL),
+                                   ("a freshly built DerivativeOfDynamicalMatrix", dF, TOL)):
+                if np.abs(dC - ref).max() > tol * sc:
+                    run.violation(SITE_C, klass, "compiled derivative of a reused DerivativeOfDynamicalMatrix differs from %s by %.3g (scale %.3g)" % (
+                        what, np.abs(dC - ref).max(), sc), info)
+                    break
+            # group velocities of the reused GroupVelocity object: fresh object, and gradient of the current frequencies
+            gv_obj.run([qpt])
+            gv_r = gv_obj.group_velocities[0].copy()
+            gfresh = _GVc(dm, frequency_factor_to_THz=ph.unit_conversion_factor)
+            gfresh.run([qpt])
+            gv_f = gfresh.group_velocities[0].copy()
+            run.count("oracle-sequence-group-velocity(reused object vs fresh/gradient)", section="oracle")
+            if np.abs(gv_r - gv_f).max() > 1e-9 * max(1.0, np.abs(gv_f).max()):
+                run.violation("GroupVelocity.run", klass, "group velocities of a reused GroupVelocity differ from those of a fresh one by %.3g" % np.abs(gv_r - gv_f).max(), info)
+            dm.run(qpt)
+            f0 = np.sqrt(np.abs(np.linalg.eigvalsh(dm.dynamical_matrix))) * ph.unit_conversion_factor
+            lat = ph.primitive.cell
+
+            def fr(qq):
+                dm.run(qq)
+                ev_ = np.linalg.eigvalsh(dm.dynamical_matrix)
+                return np.sqrt(np.abs(ev_)) * np.sign(ev_) * ph.unit_conversion_factor
+
+            h = 1e-4
+            grad = np.zeros_like(gv_r)
+            for a_ in range(3):
+                e = np.zeros(3)
+                e[a_] = 1
+                dq = lat @ e
+                c1 = (fr(qpt + h * dq) - fr(qpt - h * dq)) / (2 * h)
+                c2 = (fr(qpt + h / 2 * dq) - fr(qpt - h / 2 * dq)) / h
+                grad[:, a_] = (4 * c2 - c1) / 3
+            for nu in range(len(f0)):
+                gaps = np.abs(np.delete(f0, nu) - f0[nu])
+                if f0[nu] < FMIN or gaps.min() < GAP:
+                    continue
+                if np.abs(grad[nu] - gv_r[nu]).max() > 1e-5 * max(1.0, np.abs(gv_r[nu]).max()):
+                    run.violation("GroupVelocity.run", klass, "group velocity %s of a reused GroupVelocity differs from the gradient %s of the current frequency (band %d)" % (
+                        gv_r[nu].tolist(), grad[nu].tolist(), nu), info)
+                    break
+            # the model, fed with the CURRENT parameters of the dynamical matrix
+            nac = (np.array(dm.born), np.array(dm.dielectric_constant), reclat @ qpt, dm.nac_factor * npa / len(ph.supercell))
+            dm.run(qpt)
+            lines.append(request_ddmall(spec, ph, ddm_obj, np.array(dm.force_constants), qpt, nac))
+            meta.append(("ddmall", info, 3 * npa, dict(C=dC, Py=dP, D=dm.dynamical_matrix.copy())))
+            run.case(("seq", name, np.array(smat).tolist(), k_, qpt.tolist()), nontrivial=k_ > 0)
+            run.count("sequence step %d (%s)" % (k_, "after nac_params setter" if k_ else "initial"))
+        # the Phonopy-level route rebuilds everything: same check through the API
+        ph.run_qpoints([qpt], with_group_velocities=True)
+        ph.nac_params = rand_nac(rng, len(cell))
+        ph.run_qpoints([qpt], with_group_velocities=True)
+        g1 = ph.get_qpoints_dict()["group_velocities"][0]
+        ph2 = Phonopy(cell, supercell_matrix=smat, primitive_matrix="P", log_level=0, is_symmetry=False)
+        ph2.nac_params = ph.nac_params
+        ph2.force_constants = np.array(ph.force_constants).copy()
+        ph2.run_qpoints([qpt], with_group_velocities=True)
+        g2 = ph2.get_qpoints_dict()["group_velocities"][0]
+        run.count("oracle-sequence-Phonopy.nac_params-route", section="oracle")
+        if np.abs(g1 - g2).max() > 1e-9 * max(1.0, np.abs(g2).max()):
+            run.violation("Phonopy.run_qpoints(with_group_velocities=True)", "after-Phonopy.nac_params", "group velocities after Phonopy.nac_params = ... differ from a fresh Phonopy object by %.3g" % np.abs(g1 - g2).max(),
+                          dict(cell=name, smat=np.array(smat).tolist(), q=qpt.tolist()))
 
     # ---------------- designated long-wavelength q-points: nearly degenerate acoustic branches
     # (bands are grouped with a tolerance of 1e-4 THz on the FREQUENCIES; a mode farther than that from every other band
